@@ -147,6 +147,23 @@ DEFAULT_KEYS_PLAIN = ["five", "abc", "now", "expr"]
 DEFAULT_KEYS_IDENTITY = ["id0", "id_a2", "id_3", "id_a"]
 DEFAULT_KEYS_COMPUTED = ["comp"]
 _IDENT = {"id0": (False, None), "id_a2": (True, 2), "id_3": (False, 3), "id_a": (True, None)}
+# identities with further options (the extra options as the model sees them: (attribute, value) sorted by attribute)
+_IDENT_KW = {
+    "id_nomin": dict(nominvalue=True),
+    "id_nomax_cyc": dict(nomaxvalue=True, cycle=True),
+    "id_full": dict(always=True, start=2, nominvalue=True, nomaxvalue=True, cache=5),
+    "id_minmax": dict(minvalue=1, maxvalue=99, increment=2),
+    "id_cyc": dict(cycle=True, cache=5),
+}
+for _k, _kw in _IDENT_KW.items():
+    DEFAULTS[_k] = (lambda kw: (lambda: Identity(**kw)))(_kw)
+    _IDENT[_k] = (bool(_kw.get("always")), _kw.get("start"))
+DEFAULT_KEYS_IDENTITY += list(_IDENT_KW)
+
+
+def ident_extra(key):
+    kw = _IDENT_KW.get(key, {})
+    return sorted([k, str(v)] for k, v in kw.items() if k not in ("always", "start"))
 
 COMMENTS = ["hello", "second note", "x", ""]
 # column names of the identifier-quoting classes (mixed case, reserved word, space, quote character, bracket)
@@ -232,7 +249,7 @@ def default_token(dialect, key):
     if ck not in _DF_CACHE:
         if key in _IDENT:
             a, s = _IDENT[key]
-            tok = {"kind": "identity", "always": a, "start": s}
+            tok = {"kind": "identity", "always": a, "start": s, "extra": ident_extra(key)}
         elif key in DEFAULT_KEYS_COMPUTED:
             tok = {"kind": "computed", "text": "c9 + 1"}
         else:
@@ -423,14 +440,41 @@ def _t(m, i=1):
     return {"schema": _U(m.group(i)), "table": _U(m.group(i + 1))}
 
 
+_IDENT_CLAUSE = r"(?:START WITH \d+|INCREMENT BY \d+|MINVALUE \d+|MAXVALUE \d+|NO ?MINVALUE|NO ?MAXVALUE|CACHE \d+|NO ?CYCLE|CYCLE)"
+
+
+def _ident_clause(text):
+    """one identity option clause -> (attribute, value)"""
+    t = text.replace(" ", "")
+    if t == "NOMINVALUE":
+        return "nominvalue", "True"
+    if t == "NOMAXVALUE":
+        return "nomaxvalue", "True"
+    if t == "CYCLE":
+        return "cycle", "True"
+    if t == "NOCYCLE":
+        return "cycle", "False"
+    word, num = text.rsplit(" ", 1)
+    return {"START WITH": "start", "INCREMENT BY": "increment", "MINVALUE": "minvalue", "MAXVALUE": "maxvalue",
+            "CACHE": "cache"}[word], num
+
+
 def _ident_opts(s):
-    """'(START WITH 2)' | '' | None -> (ok, start)"""
+    """'(START WITH 2 NO MINVALUE CYCLE)' | '' | None -> (ok, start, extra sorted by attribute)"""
     if not s:
-        return True, None
-    m = re.fullmatch(r"\(START WITH (\d+)\)", s.strip())
-    if m:
-        return True, int(m.group(1))
-    return False, None
+        return True, None, []
+    body = s.strip()[1:-1].strip()
+    if not re.fullmatch(r"%s(?: %s)*" % (_IDENT_CLAUSE, _IDENT_CLAUSE), body):
+        return False, None, []
+    start = None
+    extra = []
+    for c in re.findall(_IDENT_CLAUSE, body):
+        k, v = _ident_clause(c)
+        if k == "start":
+            start = int(v)
+        else:
+            extra.append([k, v])
+    return True, start, sorted(extra)
 
 
 def _constraint_stmts(s):
@@ -477,24 +521,29 @@ def _parse_generic(s, rename_kw, pg):
             return {"k": "identityDrop", **_t(m), "col": _U(m.group(3))}
         m = re.fullmatch(A + r" ADD GENERATED (ALWAYS|BY DEFAULT) AS IDENTITY ?(\(.*\))?", s)
         if m:
-            ok, start = _ident_opts(m.group(5))
+            ok, start, extra = _ident_opts(m.group(5))
             if ok:
-                return {"k": "identityAdd", **_t(m), "col": _U(m.group(3)), "always": m.group(4) == "ALWAYS", "start": start}
-        m = re.fullmatch(A + r"((?: SET GENERATED (?:ALWAYS|BY DEFAULT)| SET START WITH \d+)*)", s)
+                return {"k": "identityAdd", **_t(m), "col": _U(m.group(3)), "always": m.group(4) == "ALWAYS", "start": start,
+                        "extra": extra}
+        m = re.fullmatch(A + r"((?: SET (?:GENERATED (?:ALWAYS|BY DEFAULT)|%s))*)" % _IDENT_CLAUSE, s)
         if m:
-            body = m.group(4)
-            parts = re.findall(r" SET (GENERATED (?:ALWAYS|BY DEFAULT)|START WITH \d+)", body)
-            # the code emits them in sorted attribute order: always, start
-            kinds = ["a" if p.startswith("GENERATED") else "s" for p in parts]
-            if kinds in ([], ["a"], ["s"], ["a", "s"]):
-                always = None
-                start = None
-                for p in parts:
-                    if p.startswith("GENERATED"):
-                        always = p.endswith("ALWAYS")
+            parts = re.findall(r" SET (GENERATED (?:ALWAYS|BY DEFAULT)|%s)" % _IDENT_CLAUSE, m.group(4))
+            always = None
+            start = None
+            extra = []  # in the order emitted (the code emits sorted(diff): always, the other attributes, start)
+            ok = True
+            for i, p in enumerate(parts):
+                if p.startswith("GENERATED"):
+                    ok = ok and i == 0
+                    always = p.endswith("ALWAYS")
+                else:
+                    k, v = _ident_clause(p)
+                    if k == "start":
+                        start = int(v)
                     else:
-                        start = int(p.split()[-1])
-                return {"k": "identityAlter", **_t(m), "col": _U(m.group(3)), "always": always, "start": start}
+                        extra.append([k, v])
+            if ok:
+                return {"k": "identityAlter", **_t(m), "col": _U(m.group(3)), "always": always, "start": start, "extra": extra}
     return _constraint_stmts(s)
 
 
@@ -608,9 +657,10 @@ def _parse_oracle(s):
         return {"k": "identityDrop", **_t(m), "col": _U(m.group(3))}
     m = re.fullmatch(M + r" GENERATED (ALWAYS|BY DEFAULT) AS IDENTITY ?(\(.*\))?", s)
     if m:
-        ok, start = _ident_opts(m.group(5))
+        ok, start, extra = _ident_opts(m.group(5))
         if ok:
-            return {"k": "identitySet", **_t(m), "col": _U(m.group(3)), "always": m.group(4) == "ALWAYS", "start": start}
+            return {"k": "identitySet", **_t(m), "col": _U(m.group(3)), "always": m.group(4) == "ALWAYS", "start": start,
+                    "extra": extra}
         return None
     m = re.fullmatch(r"ALTER TABLE %s RENAME COLUMN %s TO %s" % (TREF, ID, ID), s)
     if m:
